@@ -628,6 +628,13 @@ impl Interp {
                     }
                     return;
                 }
+                if self.opts.faults && !in_use && info.device_error {
+                    // like close_file, close_volume gives the slot back even when storing the
+                    // information sector failed (the wrappers consume the handle in any case)
+                    self.vols.remove(i);
+                    self.closed_vols.push(h);
+                    return;
+                }
                 if in_use {
                     self.expect_err(info, &r, &["VolumeStillInUse"], "C08", "close-volume-in-use", "close_volume");
                     info.refused = true;
@@ -1787,6 +1794,23 @@ impl Interp {
 
     /// Close everything through the API (files, then directories, then volumes).
     pub fn close_all(&mut self, info: &mut StepInfo) {
+        self.close_files_and_dirs(info);
+        if info.panicked.is_some() {
+            return;
+        }
+        while let Some(ov) = self.vols.pop() {
+            let r = self.call(info, |a| a.close_volume(ov.h, Surf::Raw));
+            if let Some(Err(e)) = r {
+                if !self.opts.faults {
+                    self.div("C08", "close-volume", format!("close_volume failed: {:?}", e));
+                }
+            }
+            self.closed_vols.push(ov.h);
+        }
+    }
+
+    /// Close every file and directory, leave the volumes open.
+    pub fn close_files_and_dirs(&mut self, info: &mut StepInfo) {
         while let Some(of) = self.files.pop() {
             let r = self.call(info, |a| a.close_file(of.h, Surf::Raw, false));
             match r {
@@ -1810,15 +1834,6 @@ impl Interp {
         while let Some(od) = self.dirs.pop() {
             let _ = self.call(info, |a| a.close_dir(od.h, Surf::Raw));
             self.closed_dirs.push(od.h);
-        }
-        while let Some(ov) = self.vols.pop() {
-            let r = self.call(info, |a| a.close_volume(ov.h, Surf::Raw));
-            if let Some(Err(e)) = r {
-                if !self.opts.faults {
-                    self.div("C08", "close-volume", format!("close_volume failed: {:?}", e));
-                }
-            }
-            self.closed_vols.push(ov.h);
         }
     }
 
